@@ -35,19 +35,49 @@ Proof. vm_compute. reflexivity. Qed.
 
 (* /Prev loops, also through a hybrid file's stream; a /Prev of an /XRefStm stream is ignored *)
 Example c4_ex_xref_cycle :
-  c4_read_xref [(100%Z, mkC4xsec C4xTable false 0 200); (200%Z, mkC4xsec C4xStream false 0 100)] 100 = (C4xLoop, [200; 100]%Z).
+  c4_read_xref [(100%Z, mkC4xsec C4xTable false 0 200 3 1); (200%Z, mkC4xsec C4xStream false 0 100 3 0)] 100
+  = mkC4xout C4xLoop [200; 100]%Z [200; 100]%Z 0.
 Proof. vm_compute. reflexivity. Qed.
 Example c4_ex_xref_hybrid :
-  c4_read_xref [(100%Z, mkC4xsec C4xTable false 300 0); (300%Z, mkC4xsec C4xStream false 0 100)] 100 = (C4xOk, [300; 100]%Z).
+  c4_read_xref [(100%Z, mkC4xsec C4xTable false 300 0 3 1); (300%Z, mkC4xsec C4xStream false 0 100 3 0)] 100
+  = mkC4xout C4xOk [300; 100]%Z [100]%Z 0.
 Proof. vm_compute. reflexivity. Qed.
+(* the hypothesis of xref_walk_cycle_reported is satisfiable, also by a cycle that is closed only through white space:
+   the stream's /Prev names the byte in front of the table, the table's /Prev a byte three in front of the stream *)
 Example c4_ex_xref_cycle_hyp :
-  let g := [(100%Z, mkC4xsec C4xTable false 0 200); (200%Z, mkC4xsec C4xStream false 0 100)] in
-  forall k s, c4_zfind g k = Some s -> c4x_bad s = false /\ c4x_stm s = 0%Z /\ c4x_prev s <> 0%Z /\ In (c4x_prev s) (map fst g).
+  let g := [(100%Z, mkC4xsec C4xTable false 0 197 3 1); (200%Z, mkC4xsec C4xStream false 0 99 3 0)] in
+  c4_xclosed g (fun off => off = 99%Z \/ off = 197%Z) /\
+  c4_read_xref g 197 = mkC4xout C4xLoop [100; 200]%Z [99; 197]%Z 1 /\
+  c4_read_xref g 200 = mkC4xout C4xLoop [200; 100; 200]%Z [197; 99; 200]%Z 1.
 Proof.
-  intros g k s H. unfold g in *. cbn in H.
-  destruct (k =? 100)%Z; [inversion H; subst; cbn; repeat split; try discriminate; auto|].
-  destruct (k =? 200)%Z; [inversion H; subst; cbn; repeat split; try discriminate; auto | discriminate].
+  split; [|split; vm_compute; reflexivity].
+  intros off [E|E]; subst off.
+  - exists 100%Z, (mkC4xsec C4xTable false 0 197 3 1). cbn. repeat split; try discriminate; auto; lia.
+  - exists 200%Z, (mkC4xsec C4xStream false 0 99 3 0). cbn. repeat split; try discriminate; auto.
 Qed.
+(* white space in front of a section: /Prev 1..3 bytes before a stream that was read is still a loop; a table tolerates
+   exactly min(gap, 2) bytes and warns; an offset in front of the white space is not a section at all *)
+Example c4_ex_xref_ws_self_loops :
+  c4xo_res (c4_read_xref [(200%Z, mkC4xsec C4xStream false 0 199 3 0)] 200) = C4xLoop /\
+  c4xo_res (c4_read_xref [(200%Z, mkC4xsec C4xStream false 0 197 3 0)] 200) = C4xLoop /\
+  c4_read_xref [(200%Z, mkC4xsec C4xStream false 0 197 3 0)] 198 = mkC4xout C4xLoop [200; 200]%Z [197; 198]%Z 0 /\
+  c4_read_xref [(100%Z, mkC4xsec C4xTable false 0 99 3 1)] 100 = mkC4xout C4xLoop [100; 100]%Z [99; 100]%Z 1 /\
+  c4_read_xref [(100%Z, mkC4xsec C4xTable false 0 98 3 1)] 100 = mkC4xout C4xDamaged [100]%Z [98; 100]%Z 1 /\
+  c4_read_xref [(100%Z, mkC4xsec C4xTable false 0 98 3 2)] 100 = mkC4xout C4xLoop [100; 100]%Z [98; 100]%Z 1 /\
+  c4xo_res (c4_read_xref [(100%Z, mkC4xsec C4xTable false 0 96 3 1)] 100) = C4xNotFound.
+Proof. vm_compute. repeat split; reflexivity. Qed.
+
+(* qpdf JSON import: "value": "4 0 R" is refused whether or not 4 0 is (already) a stream, and counted - also on the stream
+   itself (since the repair of C14-F4); a logic_error thrown by a callee would pass importJSON untranslated *)
+Example c4_ex_json_value_reference :
+  c4_import_json [] false [C4jObj 4 0 [C4jStream true true true false false]; C4jObj 5 0 [C4jValRef 4 0]] = (C4eRuntime, 1, [(4, 0)]) /\
+  c4_import_json [] false [C4jObj 5 0 [C4jValRef 4 0]; C4jObj 4 0 [C4jStream true true true false false]] = (C4eRuntime, 1, [(4, 0)]) /\
+  c4_import_json [(4, 0)] false [C4jObj 5 0 [C4jValRef 4 0]] = (C4eRuntime, 1, [(4, 0)]) /\
+  c4_import_json [(4, 0)] false [C4jObj 4 0 [C4jValRef 4 0]] = (C4eRuntime, 1, [(4, 0)]) /\
+  c4_import_json [] false [C4jObj 4 0 [C4jStream true true true false false]; C4jObj 5 0 [C4jValDirect true]] = (C4eNone, 0, [(4, 0)]) /\
+  c4_import_json [] false [C4jThrows C4eQPDFExc; C4jObj 5 0 [C4jValRef 4 0]] = (C4eRuntime, 0, []) /\
+  c4_import_json [] false [C4jThrows C4eLogic] = (C4eLogic, 0, []).
+Proof. vm_compute. repeat split; reflexivity. Qed.
 
 (* outlines: 48 objects in 24 levels of two siblings that both point to the next level: 2^24 helpers unguarded, 95 here *)
 Fixpoint c4_ex_odag (d : nat) (i : N) : list (N * c4_onode) :=
